@@ -58,10 +58,15 @@ inductive RuleItem
   | smallReal (shown : String)                    -- a REAL literal with |x| ≤ FLT_MIN; `shown` = its `%f` rendering
   deriving Repr, DecidableEq
 
+/-- an expression with the line it is reported on.  `isWhere`: it is a domain (WHERE) rule of an entity or type — the only
+    context in which `WHEREresolve( …, need_self )` demands a reference to SELF or an attribute; `false` for a DERIVE
+    initialiser, an aggregate bound of an attribute type, a constant's value, a statement of a function body, a WHERE clause of a
+    global RULE -/
 structure Rule where
   label : String
   line : Nat
   items : List RuleItem
+  isWhere : Bool := true
   deriving Repr, DecidableEq
 
 /-- one attribute reference of a UNIQUE rule: `attr` or `SELF\\qual.attr` -/
@@ -95,10 +100,20 @@ structure TypeDecl where
   rules : List Rule := []            -- WHERE rules of the type (`fn(SELF, …) > 0`)
   deriving Repr, DecidableEq
 
+/-- what a schema-level algorithm-like declaration is: all three enter the schema's dictionary under their name; only a
+    FUNCTION can be called -/
+inductive AlgKind | function | rule | constant
+  deriving Repr, DecidableEq
+
+/-- FUNCTION / global RULE / CONSTANT: `locals` = formal parameters and local variables (for a RULE: the entities it is FOR),
+    `body` = the expressions of its statements (for a constant: its value), each with its line -/
 structure Func where
   name : String
   line : Nat
   nparams : Nat
+  kind : AlgKind := .function
+  locals : List String := []
+  body : List Rule := []
   deriving Repr, DecidableEq
 
 inductive Decl
@@ -150,7 +165,9 @@ structure File where
 
 def Schema.entities (s : Schema) : List Entity := s.decls.filterMap fun | .entity e => some e | _ => none
 def Schema.types (s : Schema) : List TypeDecl := s.decls.filterMap fun | .type t => some t | _ => none
-def Schema.funcs (s : Schema) : List Func := s.decls.filterMap fun | .func f => some f | _ => none
+/-- the callable ones -/
+def Schema.funcs (s : Schema) : List Func :=
+  s.decls.filterMap fun | .func f => if f.kind = .function then some f else none | _ => none
 
 def findEntity (s : Schema) (n : String) : Option Entity := s.entities.find? (·.name = n)
 def findType (s : Schema) (n : String) : Option TypeDecl := s.types.find? (·.name = n)
@@ -631,6 +648,24 @@ def pass4 (path : String) (env : Env) (s : Schema) : List Diag :=
 
 /-- a function call inside a domain rule: arity warning, or undefined function (+ the MISSING_SELF it entails: the
     arguments, where SELF occurs, are not resolved) -/
+def missingSelf (path : String) (r : Rule) : List Diag :=
+  if r.isWhere then [mk path LibErrors.MISSING_SELF r.line [sArg r.label]] else []
+
+/-- a bare identifier that is no attribute of the entity at hand: what the enclosing schema scope makes of it — `none` when
+    nothing of that name is visible (own declarations of any kind, imported objects); a function named without an argument
+    list is a call with no arguments -/
+def globalRef (path : String) (env : Env) (s : Schema) (r : Rule) (n : String) : Option (List Diag) :=
+  match findFunc s n with
+  | some fd => some (if fd.nparams = 0 then [] else [mk path LibErrors.WRONG_ARG_COUNT r.line [sArg n, .int 0, .int fd.nparams]])
+  | none => if (ownObj s n).isSome || (env.foreign n).isSome then some [] else none
+
+/-- a bare identifier of an entity-level expression that is no attribute: the enclosing scopes are searched; a domain rule,
+    having no other reference to SELF or an attribute, is reported as well -/
+def bareOutside (path : String) (env : Env) (s : Schema) (r : Rule) (n : String) : List Diag :=
+  match globalRef path env s r n with
+  | some ds => ds ++ missingSelf path r
+  | none => mk path LibErrors.UNDEFINED r.line [sArg n] :: missingSelf path r
+
 def callDiags (path : String) (s : Schema) (r : Rule) (fn : String) (argc : Nat) : List Diag :=
   match findFunc s fn with
   | some fd => if fd.nparams = argc then []
@@ -638,8 +673,7 @@ def callDiags (path : String) (s : Schema) (r : Rule) (fn : String) (argc : Nat)
   | none =>
     match builtinArity fn with
     | some n => if n = argc then [] else [mk path LibErrors.WRONG_ARG_COUNT r.line [sArg fn.toUpper, .int argc, .int n]]
-    | none => [mk path LibErrors.UNDEFINED_FUNC r.line [sArg fn],
-               mk path LibErrors.MISSING_SELF r.line [sArg r.label]]
+    | none => mk path LibErrors.UNDEFINED_FUNC r.line [sArg fn] :: missingSelf path r
 
 /-- `TYPEresolve_expressions` for the WHERE rules of every type declaration of the schema — whatever its underlying type
     (simple, aggregate, enumeration, select, or another defined type) and whether or not anything uses it -/
@@ -674,34 +708,50 @@ def redeclDiags (path : String) (s : Schema) (fuel : Nat) (e : Entity) : List Di
         | none => []
 
 /-- one item of a domain rule of entity `e` -/
-def ruleItemDiags (path : String) (s : Schema) (fuel : Nat) (e : Entity) (r : Rule) : RuleItem → List Diag
+def ruleItemDiags (path : String) (env : Env) (s : Schema) (fuel : Nat) (e : Entity) (r : Rule) : RuleItem → List Diag
   | .call fn argc => callDiags path s r fn argc
   | .selfAttr an =>
     (match namedAttr s an fuel e.name with
      | some true => []
      | _ => [mk path LibErrors.UNKNOWN_ATTR_IN_ENTITY r.line [sArg an, sArg e.name]])
   | .bareAttr an =>
-    -- `VARfind`: own and inherited attributes only; otherwise the name is looked up (and not found) in the enclosing
-    -- scopes, and the rule, having no other reference to SELF or an attribute, is reported as well
+    -- `VARfind`: own and inherited attributes only; otherwise the name is looked up in the enclosing scopes, and a domain
+    -- rule, having no other reference to SELF or an attribute, is reported as well
     (match namedAttr s an fuel e.name with
      | some true => []
-     | _ => [mk path LibErrors.UNDEFINED r.line [sArg an], mk path LibErrors.MISSING_SELF r.line [sArg r.label]])
+     | _ => bareOutside path env s r an)
   | .badGroup an =>
     -- `EXPresolve_op_group` on an operand that is no entity (the operand `SELF.x` has no name of its own), then the `.attr`
     [mk path LibErrors.GROUP_REF_UNEXPECTED_TYPE r.line [.str "<expression>".toList],
      mk path LibErrors.ATTRIBUTE_REF_FROM_NON_ENTITY r.line [sArg an]]
   | .smallReal _ => []
 
-def ruleDiags (path : String) (s : Schema) (fuel : Nat) (e : Entity) : List Diag :=
-  e.rules.flatMap fun r => r.items.flatMap (ruleItemDiags path s fuel e r)
+def ruleDiags (path : String) (env : Env) (s : Schema) (fuel : Nat) (e : Entity) : List Diag :=
+  e.rules.flatMap fun r => r.items.flatMap (ruleItemDiags path env s fuel e r)
 
 /-- `ENTITYresolve_expressions` for one entity -/
-def entityPass5 (path : String) (s : Schema) (fuel : Nat) (e : Entity) : List Diag :=
-  overloadDiags path s fuel e ++ redeclDiags path s fuel e ++ ruleDiags path s fuel e
+def entityPass5 (path : String) (env : Env) (s : Schema) (fuel : Nat) (e : Entity) : List Diag :=
+  overloadDiags path s fuel e ++ redeclDiags path s fuel e ++ ruleDiags path env s fuel e
 
-def pass5 (path : String) (s : Schema) : Pass :=
+/-- one item of an expression inside FUNCTION / RULE / CONSTANT `f` (no SELF there: `SELF.x` items are not interpreted) -/
+def algItemDiags (path : String) (env : Env) (s : Schema) (f : Func) (r : Rule) : RuleItem → List Diag
+  | .call fn argc => callDiags path s { r with isWhere := false } fn argc
+  | .bareAttr n =>
+    if n ∈ f.locals then []
+    else match globalRef path env s r n with
+      | some ds => ds
+      | none => [mk path LibErrors.UNDEFINED r.line [sArg n]]
+  | _ => []
+
+/-- `ALGresolve_expressions_statements` / `RULEresolve` / constant values: the expressions of every algorithm-like declaration -/
+def algDiags (path : String) (env : Env) (s : Schema) : List Diag :=
+  s.decls.flatMap fun
+    | .func f => f.body.flatMap fun r => r.items.flatMap (algItemDiags path env s f r)
+    | _ => []
+
+def pass5 (path : String) (env : Env) (s : Schema) : Pass :=
   let fuel := s.decls.length + 1
-  { diags := typeRuleDiags path s ++ s.entities.flatMap (entityPass5 path s fuel),
+  { diags := typeRuleDiags path s ++ s.entities.flatMap (entityPass5 path env s fuel) ++ algDiags path env s,
     diverges := s.entities.any fun e => (overloadCands path s fuel e).any fun (r, _) => r = none }
 
 /-- pass 2 dereferences the NULL entry that a failed `USE FROM <undefined>;` leaves in `use_schemas` when some schema
@@ -732,7 +782,7 @@ def liveSchemas (f : File) : List Schema := (f.schemas.filter (resolvable f)).ma
 def resolveDiags (f : File) : Pass :=
   let fb := ResolveGen.renameUselistFallback
   let live := liveSchemas f
-  let p5 := live.map fun s => pass5 (fileOf f s) s
+  let p5 := live.map fun s => pass5 (fileOf f s) (envOf f fb s) s
   { diags := externalParseDiags f ++ f.schemas.flatMap (pass1 f) ++ live.flatMap (pass2 f fb) ++
              live.flatMap (fun s => pass3 (fileOf f s) (envOf f fb s) s) ++
              live.flatMap (fun s => pass4 (fileOf f s) (envOf f fb s) s) ++ p5.flatMap (·.diags),
